@@ -428,7 +428,7 @@ def check_base_operators(model, rep):
     stores = {src(t) for s in find_stmts(sm.body, lambda s: isinstance(s, ast.Assign)) for t in s.targets}
     tests = [s for s in find_stmts(sm.body, lambda s: isinstance(s, ast.If)) if '_cached_submatrix' in src(s.test)]
     ok = {'self._cached_rows', 'self._cached_cols', 'self._cached_submatrix'} <= stores and len(tests) == 1 and \
-        'self._cached_rows' in src(tests[0].test) and 'self._cached_cols' in src(tests[0].test) and isinstance(tests[0].test, ast.BoolOp) and isinstance(tests[0].test.op, ast.Or)
+        '(rows != self._cached_rows).any()' in src(tests[0].test) and '(cols != self._cached_cols).any()' in src(tests[0].test) and isinstance(tests[0].test, ast.BoolOp) and isinstance(tests[0].test.op, ast.Or)
     rep.ob('R15.6', sm.key, sm.where(), ok, 'the sub-matrix cache is keyed on both rows and cols' if ok else
            'the sub-matrix cache test/store no longer covers both the row and the column selection: a stale sub-matrix would be served', statement='submatrix-cache')
     gp = base.members['getprecon'].func
